@@ -9,8 +9,9 @@ var round4Explain = map[string]string{
 	"C13": "A ledger user's password is compared literally (RString.Matches would treat '*' as a wildcard).",
 	"C16": "A DISCONNECT whose session expiry interval is 0 is never a protocol violation; attachClient handles the will before the OnDisconnect hooks.",
 	"C18": "A ledger user's password is compared literally.",
-	"C20": "The storage hooks copy the packet's properties whatever the recipient's protocol version.",
-	"C22": "The storage hooks copy the packet's properties whatever the recipient's protocol version.",
+	"C20": "The storage hooks copy the packet's properties whatever the recipient's protocol version; their per-filter loops contain no return.",
+	"C21": "The per-filter loops of the storage hooks' OnSubscribed/OnUnsubscribed contain no return (every filter of the packet is handled).",
+	"C22": "The storage hooks copy the packet's properties whatever the recipient's protocol version; their per-filter loops contain no return.",
 	"C25": "Acknowledgement records are dated; the expiry sweep has no early exit.",
 	"C26": "ConnectDecode takes the will QoS from two bits of the connect flags.",
 	"C42": "ConnectDecode takes the will QoS from two bits of the connect flags.",
